@@ -12,29 +12,6 @@ Theorem C09_index_extend_not_atomic_refuted :
 Proof. exists ex_igo, [9; 5; 11]. split; [exact ex_igo_wf|]. split; [reflexivity|]. vm_compute. discriminate. Qed.
 Print Assumptions C09_index_extend_not_atomic_refuted.
 
-(* labels that are ints, or floats equal to ints: (value, is_int) *)
-Definition fl_eq (a b : Z * bool) : bool := fst a =? fst b.
-Definition fl_pos (a : Z * bool) : option Z := if snd a then Some (fst a) else None.
-
-(* loc_is_iloc index 0,1,2: appending 1.0 is rejected (it equals 1) but only after _labels_mutable
-   grew; the next accepted append then shows 5 labels for 4 positions *)
-Theorem C09_auto_index_nonint_label_refuted :
-  exists (s : igo (Z * bool)) (v w : Z * bool),
-    igo_wf (Z * bool) fl_eq fl_pos s /\
-    is_ok (snd (M_append (Z * bool) fl_eq fl_pos s v)) = false /\
-    let s1 := fst (M_append (Z * bool) fl_eq fl_pos s v) in
-    g_lm s1 <> g_lm s /\
-    is_ok (snd (M_append (Z * bool) fl_eq fl_pos s1 w)) = true /\
-    let s2 := fst (M_append (Z * bool) fl_eq fl_pos s1 w) in
-    zlen (io_labels (M_iobserve (Z * bool) fl_eq fl_pos s2)) = 5 /\
-    io_npos (M_iobserve (Z * bool) fl_eq fl_pos s2) = 4.
-Proof.
-  exists (M_inew_auto (Z * bool) [(0, true); (1, true); (2, true)]), (1, false), (3, true).
-  split; [repeat split|]. split; [reflexivity|]. cbv zeta. split; [vm_compute; discriminate|].
-  split; [reflexivity|]. split; reflexivity.
-Qed.
-Print Assumptions C09_auto_index_nonint_label_refuted.
-
 (* FrameGO.extend(frame) with a duplicate column label after the first: rejected, but the labels before
    it were appended and no data: more labels than columns *)
 Theorem C09_frame_extend_breaks_lockstep_refuted :
